@@ -90,6 +90,10 @@ def judge(rec, cell, rc, res, err):
         rec.count('cells_watchdog_or_cpu_limit_(inconclusive)')
         rec.hist('inconclusive_cells', '%s/%d' % (c, d))
         return
+    if res is not None and 'harness_error' in res:
+        rec.count('cells_harness_error')
+        rec.note('cell harness error: ' + res['harness_error'][:200])
+        return
     rec.monitor('outcome_class')
     if rc != 0 or res is None:
         rec.violation('process-died', case,
